@@ -104,6 +104,24 @@ LAMBDAS = {
     "spaced": ("lambda  x ,  y = 2 :x+y", 2, [(3,), (3, 5)]),
     "tuple-body": ("lambda x: (x, g)", 1, [(3,)]),
     "slice": ("lambda x: [g, x, 1][0:2]", 1, [(3,)]),
+    # a lambda whose body holds ANOTHER lambda (starting on the same line) inside a generator expression /
+    # comprehension / conditional expression, with and without a condition clause; the inner one differs from the
+    # outer one in parameters and values, so a capture of the wrong lambda shows in every clause of the contract
+    "inner-in-genexp": ("lambda x: sum((lambda k: k * k)(i) for i in range(x)) + g", 1, [(3,), (0,)]),
+    "inner-in-genexp-cond": ("lambda x: sum((lambda k: k * k)(i) for i in range(x) if i != g)", 1, [(3,), (0,)]),
+    "inner-in-genexp-cond-lambda": ("lambda x: sum(i + g for i in range(x) if (lambda k: k % 2)(i))", 1, [(4,), (0,)]),
+    "inner-noargs-in-genexp": ("lambda x, y=1: sum((lambda: y)() for i in range(x))", 2, [(3,), (3, 5)]),
+    "inner-in-nested-genexp": ("lambda x: sum(sum((lambda k: k + j)(i) for i in range(j)) for j in range(x))", 1, [(4,)]),
+    "inner-in-genexp-iterable": ("lambda x: sum(i + g for i in (lambda n: range(n))(x))", 1, [(3,)]),
+    "inner-default-arg": ("lambda x, f=lambda k: k + 1: f(x) + g", 2, [(3,), (0,)]),
+    "inner-genexp-and-direct": ("lambda x, y=2: sum((lambda k: k + y)(i) for i in range(x)) + (lambda z: z * g)(x)", 2, [(3,), (3, 5)]),
+    "inner-holds-genexp": ("lambda x: (lambda n: sum(i * g for i in range(n)))(x)", 1, [(3,)]),
+    "inner-in-listcomp": ("lambda x: [(lambda k: k + g)(i) for i in range(x)]", 1, [(3,)]),
+    "inner-in-listcomp-cond": ("lambda x: [(lambda k: k + g)(i) for i in range(x) if i % 2]", 1, [(4,)]),
+    "inner-in-dictcomp": ("lambda x: {i: (lambda k: k + g)(i) for i in range(x) if i}", 1, [(3,)]),
+    "inner-in-setcomp": ("lambda x: sorted({(lambda k: k % 2)(i) for i in range(x)})", 1, [(3,)]),
+    "inner-in-conditional": ("lambda x: (lambda k: k + g)(x) if x else (lambda: g)()", 1, [(3,), (0,)]),
+    "inner-in-conditional-test": ("lambda x, y=2: x if (lambda k: k > g)(x) else y", 2, [(3,), (30, 5)]),
 }
 HOSTS = {
     "bare": "{L}",
